@@ -445,6 +445,25 @@ def _diag_gaussian_logp(p, obs, a):
                    - 0.5 * ((a - mean) / std) ** 2, axis=-1)
 
 
+def _flat_critic_class():
+    from flax import nnx
+
+    class FlatCritic(nnx.Module):
+        """critic returning shape (N,)"""
+
+        def __init__(self, net):
+            self.net = net
+
+        def __call__(self, x):
+            return self.net(x)[..., 0]
+
+    return FlatCritic
+
+
+def _FlatCritic(net):
+    return _flat_critic_class()(net)
+
+
 def _sac_parts(rng):
     import gymnasium as gym
 
@@ -492,6 +511,17 @@ def run_sac_actor(case, res):
     through_update(res, "C12/sac_actor/update_routine", "sac_update_actor", pol,
                    lambda pc, opt: sac_update_actor(pc, opt, q, key, obs, alpha),
                    rl, rg)
+    # the same objective with member critics that return shape (N,) not (N, 1)
+    qf = type(q)(_FlatCritic(q.q1), _FlatCritic(q.q2))
+    ok, outf = guarded(res, "C12/raises/sac_actor_loss", lambda: nnx.value_and_grad(
+        sac_actor_loss, argnums=0)(pol, qf, alpha, key, obs))
+    if not ok:
+        return res
+    same_value(res, "C12/sac_actor/value_flat_critic", outf[0], rl,
+               "SAC actor loss (member critics of output shape (N,))")
+    same_grads(res, "C12/sac_actor/gradient_flat_critic", outf[1], rg,
+               "SAC actor gradient (member critics of output shape (N,))")
+    res.see("flat_critic_checks")
     res.nontrivial = True
     res.state(("sac_actor", N))
     return res
